@@ -413,6 +413,47 @@ def droc(ctx):
         _ob(ctx, c, k, ok, "DROC: x and y of a point come from the same get_scores request", "DROC: x and y of a point come from different requests")
 
 
+# ---------------------------------------------------------------------------------------------------------------- maps
+def map_columns(ctx):
+    """C16.8: on the map of input f (panel f + 1 of _setup_map) every marker is selected and coloured by column f of the score matrix:
+    the validity mask of one input is not the validity mask of another (a score can be undefined for one input only)."""
+    from ..core import AnalysisError
+    prog = ctx.prog
+    c = prog.cls("verif.output.Standard")
+    m = prog.module("verif.output")
+    site = c.qual + "._map_core"
+    try:
+        calls, ev = plotargs.draw_calls(prog, c, method="_map_core", merge=True)
+    except symeval.Undecided as e:
+        raise AnalysisError("C16.8: %s cannot be folded: %s" % (site, e))
+    n = 0
+    for k in calls:
+        if k["kind"] not in ("scatter", "plot"):
+            continue
+        vals = [a for a in list(k["args"]) + list(k["kwargs"].values()) if isinstance(a, Rat)]
+        panel = None
+        for v in vals:
+            for a in q.atoms(v, pred=lambda a: a.func.endswith("_setup_map") and len(a.args) >= 3):
+                panel = a.args[2]
+        if panel is None or not isinstance(panel, Rat):
+            continue
+        f_key = (panel - Rat.const(1)).key()
+        cols = set()
+        for v in vals:
+            for a in q.atoms(v, "getitem"):
+                ix = a.args[1]
+                if isinstance(ix, tuple) and len(ix) == 2 and isinstance(ix[1], Rat) and "_get_x_y" in _k(a.args[0]):
+                    cols.add(ix[1].key())
+        if not cols:
+            continue
+        n += 1
+        bad = sorted(x for x in cols if x != f_key)
+        ctx.ob("C16.8", site, not bad, "map of input f: markers are selected and coloured by column f of the scores", loc=prog.loc(m, k["node"]),
+               msg="on the map of input %s the %s call selects / colours its markers by column %s of the score matrix: a location whose score is "
+                   "undefined for one input only is dropped from, or drawn without colour on, another input's map" % (f_key, k["kind"], ", ".join(bad)))
+    ctx.need(n >= 4, "C16.8: fewer drawing calls with a score column in Standard._map_core than confirmed (%d)" % n)
+
+
 def check_diagram_values(ctx):
     from ..core import AnalysisError
     n0 = ctx.rule_counts.get(RULE, 0)
